@@ -144,9 +144,9 @@ def judge_c03(t, ex, witness, extra):
             t.violation("C03: " + why, forest.case_of(ex, witness, why))
         return
     ff = _first_fault(ex)
-    if ff[0] not in PRE:
-        return
-    if ex.op[0] != "new" and models.spec_apply(ex.pre, _labels_pre(ex), ex.op, _nodemixin_of(ex))[0] == models.UNDEFINED:
+    if ff[0] not in PRE or ex.op[0] == "new":
+        return  # post-hook faults and constructor calls are outside C03's statement (C01 / C02 / C16 judge them)
+    if models.spec_apply(ex.pre, _labels_pre(ex), ex.op, _nodemixin_of(ex))[0] == models.UNDEFINED:
         t.c["undefined_vetoed_skipped"] += 1
         return
     t.c["pre_hook_vetoes"] += 1
@@ -278,9 +278,14 @@ def explore(kind, n, cfg, hidden, states, d, persistent, judge, snap=False, extr
     t = core.Tally()
     ops = forest.ops_for(n, cfg)
     if isinstance(judge, str) and judge not in JUDGES:
-        from . import lockstep
+        if judge in ("c17", "c18"):
+            from . import lockstep
 
-        JUDGES[judge] = lockstep.make_judge(judge.upper())
+            JUDGES[judge] = lockstep.make_judge(judge.upper())
+        else:
+            import importlib
+
+            JUDGES[judge] = importlib.import_module("mc.props.%s" % judge).JUDGE
     jf = JUDGES[judge] if isinstance(judge, str) else judge
     want = (lambda h: h in PRE) if only_pre_first else None
     for key, state, witness in states:
